@@ -40,7 +40,7 @@ type rtCase struct {
 
 func genRT(r *rand.Rand, underLoad bool) rtCase {
 	c := rtCase{}
-	c.Cfg = sessCfg{Budget: pick(r, 2, 5, 5), Interval: pick(r, 200*time.Microsecond, time.Millisecond, 3*time.Millisecond), GivenTID: r.Intn(2) == 0}
+	c.Cfg = sessCfg{Budget: pick(r, 2, 5, 5), Interval: pick(r, 200*time.Microsecond, time.Millisecond, 3*time.Millisecond), GivenTID: r.Intn(2) == 0, CloseFails: r.Intn(3) == 0}
 	c.Writers = 1 + r.Intn(16)
 	c.Msgs = 20 + r.Intn(80)
 	c.Feed = 30 + r.Intn(150)
